@@ -36,6 +36,44 @@ import (
 type toyHash struct{ buf []byte }
 
 func newToy() hash.Hash { return &toyHash{} }
+
+// gate: while armed, every base-hash computation blocks at its very first step (Reset, before any
+// input byte is read) until the gate is opened. Lets a case hold the section workers of an earlier
+// Write until the caller has overwritten its buffer.
+var (
+	gateMu sync.Mutex
+	gateCh chan struct{}
+)
+
+func armGate() {
+	gateMu.Lock()
+	gateCh = make(chan struct{})
+	gateMu.Unlock()
+}
+func openGate() {
+	gateMu.Lock()
+	if gateCh != nil {
+		close(gateCh)
+		gateCh = nil
+	}
+	gateMu.Unlock()
+}
+func waitGate() {
+	gateMu.Lock()
+	ch := gateCh
+	gateMu.Unlock()
+	if ch != nil {
+		<-ch
+	}
+}
+
+type gatedToy struct{ toyHash }
+
+func newGatedToy() hash.Hash { return &gatedToy{} }
+func (t *gatedToy) Reset() {
+	waitGate()
+	t.toyHash.Reset()
+}
 func (t *toyHash) Write(p []byte) (int, error) {
 	t.buf = append(t.buf, p...)
 	return len(p), nil
@@ -150,6 +188,7 @@ type jcase struct {
 	SegCount int    `json:"segcount"`
 	Uses     []juse `json:"uses"`
 	Workers  int    `json:"workers,omitempty"`
+	Gated    bool   `json:"gated,omitempty"` // toy: base hasher gated, workers held until the caller's buffer is overwritten
 }
 
 func span8(prev, hdr []byte) []byte { // SetHeader: copy(h.span, hdr) onto a zeroed 8-byte span
@@ -158,15 +197,44 @@ func span8(prev, hdr []byte) []byte { // SetHeader: copy(h.span, hdr) onto a zer
 	return s
 }
 
+// scratch is how callers feed a hasher (io.Copy, read loops): ONE buffer, refilled for every
+// Write. After Write returns the buffer belongs to the caller again, so it is overwritten with
+// garbage right away; whatever the hasher still needs it must have copied.
+type scratch struct{ buf []byte }
+
+func (s *scratch) write(h *bmt.Hasher, w []byte) error {
+	if cap(s.buf) < len(w) {
+		s.buf = make([]byte, len(w), len(w)+64)
+	}
+	b := s.buf[:len(w)]
+	copy(b, w)
+	_, err := h.Write(b)
+	for i := range b {
+		b[i] = ^b[i] + 0x5b
+	}
+	return err
+}
+
 // one user of a pool: Get, SetHeader, Write*, Hash, Put. nil result = no answer within the timeout.
+// gated: the section workers of every Write are held at the start of their base hash until the
+// caller's buffer has been overwritten.
 func useHasher(p *bmt.Pool, hdr []byte, writes [][]byte) (res []byte, capac int) {
+	return useHasherG(p, hdr, writes, false)
+}
+func useHasherG(p *bmt.Pool, hdr []byte, writes [][]byte, gated bool) (res []byte, capac int) {
 	ok := hx.WithTimeout(5*time.Second, func() {
 		h := p.Get()
 		capac = h.Capacity()
 		h.SetHeader(hdr)
+		var sc scratch
 		for _, w := range writes {
-			n, err := h.Write(w)
-			_ = n
+			if gated {
+				armGate()
+			}
+			err := sc.write(h, w)
+			if gated {
+				openGate()
+			}
 			if err != nil {
 				return
 			}
@@ -307,16 +375,20 @@ func doToy(jc jcase) {
 	if giveUp() {
 		return
 	}
-	pool := bmt.NewPool(bmt.NewConf(newToy, jc.SegCount, 1))
+	factory := newToy
+	if jc.Gated {
+		factory = newGatedToy
+	}
+	pool := bmt.NewPool(bmt.NewConf(factory, jc.SegCount, 1))
 	var uses []string
 	var tab []string
 	seen := map[string]bool{}
 	nontrivial := false
-	key := fmt.Sprintf("toy|%d", jc.SegCount)
+	key := fmt.Sprintf("toy|%d|%v", jc.SegCount, jc.Gated)
 	for ui, u := range jc.Uses {
 		hdr, _ := hex.DecodeString(u.Hdr)
 		ws := u.writes()
-		res, capac := useHasher(pool, hdr, ws)
+		res, capac := useHasherG(pool, hdr, ws, jc.Gated)
 		data := concat(ws)
 		if len(data) > capac {
 			data = data[:capac]
@@ -337,6 +409,9 @@ func doToy(jc jcase) {
 			if ui > 0 {
 				cl = "reused-tree"
 			}
+			if jc.Gated {
+				cl += ":workers-held-until-caller-buffer-overwritten"
+			}
 			run.Violate(hx.Violation{Sig: "toy:hash!=definition:" + cl, Detail: fmt.Sprintf("segcount %d use %d len %d writes %d: got %x want %x", jc.SegCount, ui, len(data), len(ws), res, want), Case: jc, Impl: hx.Hex(res), Want: hx.Hex(want)})
 		}
 		obs := "None"
@@ -353,6 +428,12 @@ func doToy(jc jcase) {
 		}
 		key += fmt.Sprintf("|%x/%d/%x", hdr, len(ws), data)
 		run.Hist(fmt.Sprintf("toy.seg=%d", jc.SegCount))
+		if jc.Gated {
+			run.Hist("toy.gated")
+		}
+		if len(ws) > 1 {
+			run.Hist("toy.multi-write-one-scratch-buffer")
+		}
 		run.Hist(fmt.Sprintf("toy.sections=%d", (len(data)+63)/64))
 		if res == nil {
 			break // pool is stuck
@@ -476,8 +557,9 @@ func doKeccakReset(jc jcase) {
 			hdr, _ := hex.DecodeString(u.Hdr)
 			h.Reset()
 			h.SetHeader(hdr)
+			var sc scratch
 			for _, w := range u.writes() {
-				h.Write(w)
+				sc.write(h, w)
 			}
 			r, _ := h.Hash(nil)
 			results = append(results, r)
@@ -528,8 +610,9 @@ func doConcurrent(jc jcase) {
 				hdr, _ := hex.DecodeString(u.Hdr)
 				h := get()
 				h.SetHeader(hdr)
+				var sc scratch
 				for _, w := range u.writes() {
-					h.Write(w)
+					sc.write(h, w)
 				}
 				r, _ := h.Hash(nil)
 				put(h)
@@ -683,9 +766,30 @@ func main() {
 			}})
 		}
 	}
+	// gated corner cases on every seed: several section-sized writes through one scratch buffer,
+	// the workers of each Write held until the buffer has been overwritten
+	for _, seg := range []int{4, 8, 16} {
+		capac := capOf(seg)
+		for _, piece := range []int{64, 128, 100} {
+			var wl []int
+			for n := capac; n > 0; n -= piece {
+				k := piece
+				if k > n {
+					k = n
+				}
+				wl = append(wl, k)
+			}
+			doToy(jcase{Kind: "toy", SegCount: seg, Gated: true, Uses: []juse{
+				{Hdr: "0807060504030201", DSeed: rt.U64() & 0xffffffff, WLens: wl, SSeed: 11, SLen: 30},
+				{Hdr: "0102030405060708", DSeed: rt.U64() & 0xffffffff, WLens: wl[:len(wl)-1], SSeed: 12, SLen: 60},
+			}})
+		}
+	}
 	for i := 0; i < run.N(170, 2500); i++ {
 		seg := segs[rt.Intn(len(segs))]
-		doToy(genToy(rt, seg, 1+rt.Intn(3)))
+		jc := genToy(rt, seg, 1+rt.Intn(3))
+		jc.Gated = rt.Chance(1, 4)
+		doToy(jc)
 	}
 
 	// ---- keccak stream
